@@ -5,19 +5,20 @@ import (
 
 	"git.sr.ht/~rockorager/vaxis"
 	"verifharness/gen"
+	"verifharness/hx"
 )
 
 // C07 colour fallback: Color.asIndex on boundary-rich colours (quick) or all 2^24 (thorough).
-func init() { register("C07", runC07) }
+func main() { hx.Main("C07", runC07) }
 
-func runC07(r *Run) error {
+func runC07(r *hx.Run) error {
 	rng := gen.New(r.Seed)
 	emit := func(c vaxis.Color) {
 		res := vaxis.VerifAsIndex(c)
 		r.Emit(fmt.Sprintf("asindex %d", uint32(c)), fmt.Sprintf("%d", uint32(res)))
 	}
 	if r.Replay != "" {
-		return replayOps(r, func(op []string) (string, bool) {
+		return hx.ReplayOps(r, func(op []string) (string, bool) {
 			if len(op) == 2 && op[0] == "asindex" {
 				var c uint32
 				fmt.Sscanf(op[1], "%d", &c)
@@ -52,7 +53,7 @@ func runC07(r *Run) error {
 		for v := uint32(0); v < 1<<24; v++ {
 			emit(vaxis.HexColor(v))
 		}
-		r.dist["rgb-all"] = 1 << 24
+		r.Add("rgb-all", 1<<24)
 		r.Note("exhaustive", true)
 		return nil
 	}
